@@ -16,6 +16,7 @@ transforms:
   dropelse   else after a branch that always returns / raises removed (its body follows the if)
   extractvar keyword arguments that are calls / arithmetic computed into a temporary right before the statement
   kw2pos     keyword arguments written positionally wherever the callee is a uniquely resolved project function
+  aug2assign counters written x = x + 1 instead of x += 1
   addelse    the inverse: statements after such an if moved into an else
   rename     every purely local variable v of a function renamed v_r  (parameters, globals, closure variables untouched)
 """
@@ -283,6 +284,15 @@ class ExtractVar(ast.NodeTransformer):
         return self.generic_visit(node)
 
 
+class Aug2Assign(ast.NodeTransformer):
+    """x += c  ->  x = x + c   for plain names and numeric constants (counters; for scalars the two are the same statement)"""
+
+    def visit_AugAssign(self, n):
+        if isinstance(n.target, ast.Name) and isinstance(n.value, ast.Constant) and isinstance(n.value.value, (int, float)) and not isinstance(n.value.value, bool) and isinstance(n.op, (ast.Add, ast.Sub)):
+            return ast.copy_location(ast.Assign(targets=[ast.Name(id=n.target.id, ctx=ast.Store())], value=ast.BinOp(left=ast.Name(id=n.target.id, ctx=ast.Load()), op=n.op, right=n.value)), n)
+        return n
+
+
 class Combo(ast.NodeTransformer):
     """all of the above, one after the other"""
 
@@ -293,7 +303,7 @@ class Combo(ast.NodeTransformer):
         return tree
 
 
-TRANSFORMS = {"flipcmp": FlipCmp, "commute": Commute, "retvar": RetVar, "kworder": KwOrder, "ifinvert": IfInvert, "rename": Rename, "combo": Combo, "swapadj": SwapAdj, "dropelse": DropElse, "addelse": AddElse, "extractvar": ExtractVar, "kw2pos": None}
+TRANSFORMS = {"flipcmp": FlipCmp, "commute": Commute, "retvar": RetVar, "kworder": KwOrder, "ifinvert": IfInvert, "rename": Rename, "combo": Combo, "swapadj": SwapAdj, "dropelse": DropElse, "addelse": AddElse, "extractvar": ExtractVar, "kw2pos": None, "aug2assign": Aug2Assign}
 
 
 def _kw2pos_sources():
